@@ -53,6 +53,10 @@ CLAIMED = {
   text='Coq theorems (Props/C09.v) over the dump model: the byte string that is counted and hashed is the one left at the recorded path (size and H(data) for any hash function H), package totals are the sums over resources, equal data gives equal hashes, dotted counter names set/get/increment the addressed nested attribute. Direct oracle on real dumps (csv/json x path/zip x counters renamed/nested/disabled x add_filehash_to_path x pretty_descriptor, each dumped twice): size, md5 and data-row count recomputed from the bytes on disk or in the zip; stats of process() compared with the written descriptor. Correspondence: totals and dotted-counter arithmetic evaluated by vm_compute against the observed descriptor.',
   note='Trusted: harness recomputation of size/md5/rows; md5 is a parameter. Known finding: stats bytes include the size of datapackage.json. The fix: commits for add_filehash_to_path and the per-resource row count are recorded in known_findings.json as fixed.',
   technique='Coq proof over dump model + vm_compute correspondence + direct oracle on bytes on disk', ref='5/C09'),
+ 'C03': dict(
+  text='Coq theorems (Props/C03.v): for every listed field type, cast(stamped field)(serialise v) = v for typed values and null<->\'\' (hypotheses: Python scalar text codecs satisfy parse(print x)=x and never print empty text); row and table level: a table whose rows carry exactly the schema\'s keys with typed values is returned identically and in order, given the CSV layer\'s round trip of the written cell texts as a premise; the stamps the codecs rely on are regenerated from the source. The CSV layer is an executable model of Python\'s csv reader state machine and QUOTE_MINIMAL writer; on every generated CSV case vm_compute checks that the writer model reproduces the written file byte for byte and the reader model returns the cell texts (the premise, case by case). Direct oracles: real dump_to_path/dump_to_zip followed by real load, and an independent decoder that reads each written file with nothing but the recorded dialect/format/missingValues/field properties.',
+  note='Partial: the general CSV round-trip lemma read_csv (write_csv recs) = recs is a premise discharged per generated case by vm_compute, not yet a proved theorem (see DESIGN.md 10); scalar codecs are hypotheses; tabulator (reader used by load) is third party -- its two deviations are known findings (JSON key sorting vs positional cast; universal-newline translation of CR LF inside cells).',
+  technique='Coq proof (codecs, table level) + per-case vm_compute of the CSV model + direct oracles incl. independent decoder', ref='5/C03'),
 }
 
 NOT_YET = 'check not built yet (work in progress; will be claimed once its Coq model, theorems and correspondence check exist)'
